@@ -5,7 +5,7 @@ package pogreb
 // Contracts for the insert path of index.go / bucket.go (GoVC, see /verif/DESIGN.md). Comment-only file.
 
 // the free list holds offsets of whole buckets of the overflow file
-//@ spec func idxFreeOK(idx *index) bool = forall q int :: off(idx.freeBucketOffs) <= q && q < off(idx.freeBucketOffs) + len(idx.freeBucketOffs) ==> bucketAt(contents(idx.freeBucketOffs)[q], idx.overflow.size)
+//@ spec func idxFreeOK(idx *index) bool = (arr(idx.freeBucketOffs) == 0 || allocated(idx.freeBucketOffs)) && forall q int :: off(idx.freeBucketOffs) <= q && q < off(idx.freeBucketOffs) + len(idx.freeBucketOffs) ==> bucketAt(contents(idx.freeBucketOffs)[q], idx.overflow.size)
 
 // a bucket handle that designates a whole bucket of one of the two index files and whose overflow pointer is well formed
 //@ spec func bhOK(b *bucketHandle, idx *index) bool = b != nil && (b.file == idx.main || b.file == idx.overflow) && bucketAt(b.offset, b.file.size) && nextOK(b.next, idx.overflow.size)
@@ -35,7 +35,7 @@ package pogreb
 //@   ensures overflow-kept: err == nil ==> idx.overflow.size >= old(idx.overflow.size) && forall q int :: 0 <= q && q < int(old(idx.overflow.size)) ==> fData[fidOf[idx.overflow.File]][q] == old(fData[fidOf[idx.overflow.File]])[q]
 //@   ensures overflow-zero: err == nil ==> forall q int :: int(old(idx.overflow.size)) <= q && q < int(idx.overflow.size) ==> fData[fidOf[idx.overflow.File]][q] == 0
 //@   ensures err: err != nil ==> isIOErr(err)
-//@   modifies sw.bucket, sw.slotIdx, sw.prevBuckets, any(bucketHandle).bucket, elems(*bucketHandle), idx.freeBucketOffs, idx.overflow.size, fData[fidOf[idx.overflow.File]], fLen[fidOf[idx.overflow.File]], fDur[fidOf[idx.overflow.File]]
+//@   modifies sw.bucket, sw.slotIdx, sw.prevBuckets, sw.bucket.bucket, sw.prevBuckets[*], idx.freeBucketOffs, idx.overflow.size, fData[fidOf[idx.overflow.File]], fLen[fidOf[idx.overflow.File]], fDur[fidOf[idx.overflow.File]]
 
 // write: every bucket the writer touched goes to disk, the ones it left behind first; the overflow pointers of both
 // index files stay well formed and nothing outside the written buckets changes
@@ -99,20 +99,55 @@ package pogreb
 //@     auxinvariant free == nil || (free != sw && allocated(free) && allocated(free.bucket) && fresh(free) && fresh(free.bucket) && swOK(free, idx) && len(free.prevBuckets) == 0 && free.slotIdx < 31 && free.bucket.slots[free.slotIdx].offset == 0 && (forall p int :: 0 <= p && p < 31 ==> slotEncoded(fData[fidOf[free.bucket.file.File]], int(free.bucket.offset)+16*p, free.bucket.slots[p])) && uint64(free.bucket.next) == le64(fData[fidOf[free.bucket.file.File]], int(free.bucket.offset)+496))
 //@     modifies nothing
 
-// split is ASSUMED for now (listed as trusted): it keeps the index files well formed and touches nothing else
+// the same for a slot writer held as a local struct value (index.split)
+//@ spec func swValOK(sw slotWriter, idx *index) bool = bhOK(sw.bucket, idx) && 0 <= sw.slotIdx && sw.slotIdx <= 31 && len(sw.prevBuckets) >= 0 && forall q int :: off(sw.prevBuckets) <= q && q < off(sw.prevBuckets) + len(sw.prevBuckets) ==> bhOK(contents(sw.prevBuckets)[q], idx)
+
+//@ func (idx *index) freeOverflowBucket(offsets []int64) [C01]
+//@   requires offs: forall q int :: off(offsets) <= q && q < off(offsets) + len(offsets) ==> bucketAt(contents(offsets)[q], idx.overflow.size)
+//@   requires inv: idx != nil && idx.overflow != nil && idxFreeOK(idx) && (len(idx.freeBucketOffs) == 0 || arr(idx.freeBucketOffs) != arr(offsets))
+//@   ensures inv: idxFreeOK(idx)
+//@   modifies idx.freeBucketOffs, idx.freeBucketOffs[*]
+
+// split: one bucket chain is redistributed over its old main bucket and a new last main bucket; the buckets are
+// rebuilt in memory (inserting may chain fresh or recycled overflow buckets), the old overflow buckets go to the free
+// list, both chains are written, and the addressing state moves on: IDX-WF holds again afterwards
 //@ func (idx *index) split() (err error) [C01]
-//@   trusted two slot writers over one chain, freed overflow buckets: body not verified yet
-//@   requires inv: idxWF(idx) && idxFreeOK(idx)
-//@   ensures inv: err == nil ==> idxWF(idx) && idxFreeOK(idx)
+//@   requires inv: theDB() != nil && idx == theDB().index && idxWF(idx) && idxFreeOK(idx) && idx.level < 31
+//@   ensures inv-files: err == nil ==> idxFiles(idx) && idxFreeOK(idx)
+//@   ensures inv-lh: err == nil ==> idxLH(idx)
+//@   ensures inv-main-chains: err == nil ==> chainsOK(fData[fidOf[idx.main.File]], idx.main.size, idx.overflow.size)
+//@   ensures inv-overflow-chains: err == nil ==> chainsOK(fData[fidOf[idx.overflow.File]], idx.overflow.size, idx.overflow.size)
 //@   ensures wrappers: idx.main == old(idx.main) && idx.overflow == old(idx.overflow) && idx.main.File == old(idx.main.File) && idx.overflow.File == old(idx.overflow.File) && idx.opts == old(idx.opts)
+//@   ensures [C01] one-more-bucket: err == nil ==> idx.numBuckets == old(idx.numBuckets) + 1 && idx.numKeys == old(idx.numKeys)
 //@   ensures err: err != nil ==> isIOErr(err) || err == io.EOF
-//@   modifies idx.freeBucketOffs, idx.level, idx.numBuckets, idx.splitBucketIdx, idx.main.size, idx.overflow.size, fData[fidOf[idx.main.File]], fLen[fidOf[idx.main.File]], fDur[fidOf[idx.main.File]], fData[fidOf[idx.overflow.File]], fLen[fidOf[idx.overflow.File]], fDur[fidOf[idx.overflow.File]]
+//@   modifies idx.freeBucketOffs, idx.freeBucketOffs[*], idx.level, idx.numBuckets, idx.splitBucketIdx, idx.main.size, idx.overflow.size, fData[fidOf[idx.main.File]], fLen[fidOf[idx.main.File]], fDur[fidOf[idx.main.File]], fData[fidOf[idx.overflow.File]], fLen[fidOf[idx.overflow.File]], fDur[fidOf[idx.overflow.File]]
+//@   loop 1:
+//@     invariant idx == old(idx) && it != nil && fresh(it) && it.overflow == idx.overflow && updatedBucketIdx == old(idx.splitBucketIdx) && updatedBucketIdx < old(idx.numBuckets)
+//@     invariant it.off == 0 || (it.f == idx.main && bucketAt(it.off, idx.main.size)) || (it.f == idx.overflow && bucketAt(it.off, idx.overflow.size))
+//@     invariant idxFiles(idx) && idxFreeOK(idx) && idxLH0(idx) && idx.main.size == old(idx.main.size) + 512 && idx.overflow.size >= old(idx.overflow.size)
+//@     invariant idx.main == old(idx.main) && idx.overflow == old(idx.overflow) && idx.main.File == old(idx.main.File) && idx.overflow.File == old(idx.overflow.File) && idx.opts == old(idx.opts) && idx.numBuckets == old(idx.numBuckets) && idx.numKeys == old(idx.numKeys)
+//@     invariant chainsOK(fData[fidOf[idx.main.File]], idx.main.size, idx.overflow.size) && chainsOK(fData[fidOf[idx.overflow.File]], idx.overflow.size, idx.overflow.size)
+//@     invariant swValOK(updatedBucket, idx) && swValOK(sw, idx) && fresh(updatedBucket.bucket) && fresh(sw.bucket) && ((arr(updatedBucket.prevBuckets) == 0 && cap(updatedBucket.prevBuckets) == 0) || fresh(updatedBucket.prevBuckets)) && ((arr(sw.prevBuckets) == 0 && cap(sw.prevBuckets) == 0) || fresh(sw.prevBuckets))
+//@     invariant len(overflowBuckets) >= 0 && ((arr(overflowBuckets) == 0 && cap(overflowBuckets) == 0) || fresh(overflowBuckets)) && forall q int :: off(overflowBuckets) <= q && q < off(overflowBuckets) + len(overflowBuckets) ==> bucketAt(contents(overflowBuckets)[q], idx.overflow.size)
+//@   loop 2:
+//@     invariant 0 <= j && j <= 31 && idx == old(idx) && it != nil && fresh(it) && updatedBucketIdx == old(idx.splitBucketIdx)
+//@     invariant idxFiles(idx) && idxFreeOK(idx) && idxLH0(idx) && idx.main.size == old(idx.main.size) + 512 && idx.overflow.size >= old(idx.overflow.size)
+//@     invariant idx.main == old(idx.main) && idx.overflow == old(idx.overflow) && idx.main.File == old(idx.main.File) && idx.overflow.File == old(idx.overflow.File) && idx.opts == old(idx.opts) && idx.numBuckets == old(idx.numBuckets) && idx.numKeys == old(idx.numKeys)
+//@     invariant chainsOK(fData[fidOf[idx.main.File]], idx.main.size, idx.overflow.size) && chainsOK(fData[fidOf[idx.overflow.File]], idx.overflow.size, idx.overflow.size)
+//@     invariant swValOK(updatedBucket, idx) && swValOK(sw, idx) && fresh(updatedBucket.bucket) && fresh(sw.bucket) && ((arr(updatedBucket.prevBuckets) == 0 && cap(updatedBucket.prevBuckets) == 0) || fresh(updatedBucket.prevBuckets)) && ((arr(sw.prevBuckets) == 0 && cap(sw.prevBuckets) == 0) || fresh(sw.prevBuckets))
+//@     invariant b.next == it.off && nextOK(b.next, idx.overflow.size)
+//@     invariant len(overflowBuckets) >= 0 && ((arr(overflowBuckets) == 0 && cap(overflowBuckets) == 0) || fresh(overflowBuckets)) && forall q int :: off(overflowBuckets) <= q && q < off(overflowBuckets) + len(overflowBuckets) ==> bucketAt(contents(overflowBuckets)[q], idx.overflow.size)
+
+// the addressing state in the middle of a split: split pointer and level already moved on, bucket count not yet
+//@ spec func idxLH0(idx *index) bool = idx.level < 32 && idx.splitBucketIdx < uint32(1) << idx.level && uint64(idx.numBuckets) + 1 == (uint64(1) << idx.level) + uint64(idx.splitBucketIdx)
 
 // index.put: the slot of an existing key is overwritten in place, a new key goes to a free slot found only after the
 // whole chain was searched; the index files stay well formed; the log is left alone except for the deletion counters
 //@ func (idx *index) put(newSlot slot, matchKey matchKeyFunc) (err error) [C01,C03,C16]
 //@   implements matchKey spec_matchKeyPut
 //@   requires inv: theDB() != nil && idx == theDB().index && dbFull(theDB()) && idxInLog(theDB()) && idxFreeOK(idx)
+// (fewer than 2^31 buckets: the level can still grow)
+//@   requires room: idx.level < 31
 //@   ensures inv-log: err == nil ==> dbInv(theDB())
 //@   ensures inv-idx: err == nil ==> idxFiles(idx) && idxLH(idx) && idxFreeOK(idx)
 //@   ensures inv-main-chains: err == nil ==> chainsOK(fData[fidOf[idx.main.File]], idx.main.size, idx.overflow.size)
@@ -122,4 +157,4 @@ package pogreb
 //@   ensures err: err != nil ==> isIOErr(err) || err == io.EOF || err == errFull || !isIOErr(err)
 //@   at call write@1: hint overflow-chains-after-insert: chainsOK(fData[fidOf[idx.overflow.File]], idx.overflow.size, idx.overflow.size)
 //@   at call write@1: hint main-chains-after-insert: chainsOK(fData[fidOf[idx.main.File]], idx.main.size, idx.overflow.size)
-//@   modifies any(index).freeBucketOffs, any(index).level, any(index).numKeys, any(index).numBuckets, any(index).splitBucketIdx, any(segmentMeta).DeletedKeys, any(segmentMeta).DeletedBytes, any(file).size, any(slotWriter).bucket, any(slotWriter).slotIdx, any(slotWriter).prevBuckets, any(bucketHandle).bucket, elems(*bucketHandle), fLen, fDur, fData
+//@   modifies any(index).freeBucketOffs, any(index).level, any(index).numKeys, any(index).numBuckets, any(index).splitBucketIdx, any(segmentMeta).DeletedKeys, any(segmentMeta).DeletedBytes, any(file).size, any(slotWriter).bucket, any(slotWriter).slotIdx, any(slotWriter).prevBuckets, any(bucketHandle).bucket, elems(*bucketHandle), elems(int64), fLen, fDur, fData
